@@ -8,6 +8,7 @@ pub mod verif {
     pub mod bb_c11w;
     pub mod bb_c12;
     pub mod bb_c16;
+    pub mod bb_c20w;
     pub mod bb_c18;
     pub mod bb_config;
     pub mod bb_graph;
